@@ -219,8 +219,8 @@ func (w *World) Verify(c *Contract) (res *TargetResult) {
 
 	if len(f.rets) == 0 {
 		x.oblige("cover", "returns", allProps, "true", fn, fn.Pos())
-		x.obls[len(x.obls)-1].Cover = true
-		x.obls[len(x.obls)-1].Cond = "false"
+		x.lastObl.Cover = true
+		x.lastObl.Cond = "false"
 		x.finish(res)
 		return res
 	}
@@ -258,7 +258,7 @@ func (w *World) Verify(c *Contract) (res *TargetResult) {
 				}
 				t := x.evalClause(f, e, r.heap, entry, args, res, nil)
 				x.oblige("post", fmt.Sprintf("ensures%d.ret%d", e.N, i), e.Props, and(r.reach, not(t)), fn, r.pos)
-				o := x.obls[len(x.obls)-1]
+				o := x.lastObl
 				o.Detail, o.Clause, o.Group = e.Text, e, fmt.Sprintf("ensures%d", e.N)
 			}
 			continue
@@ -272,8 +272,8 @@ func (w *World) Verify(c *Contract) (res *TargetResult) {
 		x.skolemNext = nil
 		if sk == nil {
 			x.oblige("post", fmt.Sprintf("ensures%d", e.N), e.Props, and(retReach, not(t)), fn, token.NoPos)
-			x.obls[len(x.obls)-1].Detail, x.obls[len(x.obls)-1].Clause = e.Text, e
-			x.obls[len(x.obls)-1].Group = fmt.Sprintf("ensures%d", e.N)
+			x.lastObl.Detail, x.lastObl.Clause = e.Text, e
+			x.lastObl.Group = fmt.Sprintf("ensures%d", e.N)
 			continue
 		}
 		// `forall k :: body` as a postcondition is proved for an arbitrary constant k, by the
@@ -289,12 +289,12 @@ func (w *World) Verify(c *Contract) (res *TargetResult) {
 			is := eq(sk.name, bvLit(uint64(k), w))
 			outside = append(outside, not(is))
 			x.oblige("post", fmt.Sprintf("ensures%d.%s=%d", e.N, e.CaseVar, k), e.Props, and(retReach, is, not(t)), fn, token.NoPos)
-			x.obls[len(x.obls)-1].Detail, x.obls[len(x.obls)-1].Clause = e.Text, e
-			x.obls[len(x.obls)-1].Group = fmt.Sprintf("ensures%d", e.N)
+			x.lastObl.Detail, x.lastObl.Clause = e.Text, e
+			x.lastObl.Group = fmt.Sprintf("ensures%d", e.N)
 		}
 		x.oblige("post", fmt.Sprintf("ensures%d.%s=other", e.N, e.CaseVar), e.Props, and(append([]string{retReach}, append(outside, not(t))...)...), fn, token.NoPos)
-		x.obls[len(x.obls)-1].Detail, x.obls[len(x.obls)-1].Clause = e.Text, e
-		x.obls[len(x.obls)-1].Group = fmt.Sprintf("ensures%d", e.N)
+		x.lastObl.Detail, x.lastObl.Clause = e.Text, e
+		x.lastObl.Group = fmt.Sprintf("ensures%d", e.N)
 	}
 	if c.SplitReturns && len(f.rets) > 1 {
 		// the frame condition is proved per return statement, each against its own heap
@@ -308,7 +308,7 @@ func (w *World) Verify(c *Contract) (res *TargetResult) {
 	}
 	// vacuity: the preconditions admit an execution that returns
 	x.oblige("cover", "returns", allProps, retReach, fn, fn.Pos())
-	x.obls[len(x.obls)-1].Cover = true
+	x.lastObl.Cover = true
 	x.finalizeEpochs()
 	x.finish(res)
 	return res
@@ -439,6 +439,6 @@ func (x *Exec) frameObligations(f *frame, c *Contract, entry, final *Heap, args 
 				not(eq("(select (select "+fe.term+" "+r+") "+i+")", "(select (select "+et+" "+r+") "+i+")"))}, ex...)...)
 		}
 		x.oblige("frame", k+x.frameSuffix, props, cond, f.fn, token.NoPos)
-		x.obls[len(x.obls)-1].Group = "frame:" + k
+		x.lastObl.Group = "frame:" + k
 	}
 }
